@@ -144,9 +144,11 @@ def other_info(ctx):
         derive_key.ConcatKDFHash = Capture
         try:
             derive_key.derive_key_for_concat_kdf(b"z", dict(hdr), cek_size, ks, tag)
+            got, glen = captured.pop()
+        except Exception as e:  # noqa: BLE001
+            got, glen = ("raised " + err_name(e)).encode(), -1
         finally:
             derive_key.ConcatKDFHash = real
-        got, glen = captured.pop()
         wants.append((want, bits, got, glen, hdr))
     answers = model_eval(lines) if ctx.driver_ok else [None] * len(lines)
     for ln, (want, bits, got, glen, hdr), m in zip(lines, wants, answers):
